@@ -19,6 +19,148 @@ Require Import List Bool ZArith Field Arith Lia.
 From PV Require Import Outcome Fock Poly CAR FockAdjoint EDSpec Wick WickProofs WickAllM.
 Import ListNotations.
 
+(** * Inserting / deleting a mode *)
+Fixpoint ins (p : nat) (v : bool) (s : state) : state :=
+  match p, s with
+  | O, _ => v :: s
+  | S p', b :: t => b :: ins p' v t
+  | S _, [] => [v]
+  end.
+Fixpoint del {A} (p : nat) (l : list A) : list A :=
+  match l with [] => [] | a :: t => match p with O => t | S p' => a :: del p' t end end.
+(** index of mode i <> p after mode p has been deleted, and back *)
+Definition dn (p i : nat) : nat := if i <? p then i else pred i.
+Definition up (p i : nat) : nat := if i <? p then i else S i.
+
+Lemma dn_S : forall p i, i <> p -> dn (S p) (S i) = S (dn p i).
+Proof.
+  intros p i H. unfold dn. change (S i <? S p) with (i <? p).
+  destruct (i <? p) eqn:E; [reflexivity|]. apply Nat.ltb_ge in E. cbn [pred]. lia.
+Qed.
+Lemma dn_up : forall p a, dn p (up p a) = a.
+Proof.
+  intros p a. unfold dn, up. destruct (a <? p) eqn:E; [now rewrite E|].
+  apply Nat.ltb_ge in E. assert (Q : (S a <? p) = false) by (apply Nat.ltb_ge; lia). now rewrite Q.
+Qed.
+Lemma up_neq : forall p a, up p a <> p.
+Proof. intros p a. unfold up. destruct (a <? p) eqn:E; [apply Nat.ltb_lt in E | apply Nat.ltb_ge in E]; lia. Qed.
+Lemma up_dn : forall p i, i <> p -> up p (dn p i) = i.
+Proof.
+  intros p i H. unfold dn, up. destruct (i <? p) eqn:E; [now rewrite E|].
+  apply Nat.ltb_ge in E. assert (Q : (pred i <? p) = false) by (apply Nat.ltb_ge; lia). rewrite Q. lia.
+Qed.
+Lemma dn_lt : forall p i M, i <> p -> p < M -> i < M -> dn p i < pred M.
+Proof. intros p i M H Hp Hi. unfold dn. destruct (i <? p) eqn:E; [apply Nat.ltb_lt in E | apply Nat.ltb_ge in E]; lia. Qed.
+Lemma up_lt : forall p a M, a < pred M -> up p a < M.
+Proof. intros p a M H. unfold up. destruct (a <? p); lia. Qed.
+Lemma dn_eqb : forall p i j, i <> p -> j <> p -> Nat.eqb (dn p i) (dn p j) = Nat.eqb i j.
+Proof.
+  intros p i j Hi Hj. destruct (Nat.eqb i j) eqn:E.
+  - apply Nat.eqb_eq in E. subst. apply Nat.eqb_refl.
+  - apply Nat.eqb_neq in E. apply Nat.eqb_neq. intro Q. apply E.
+    rewrite <- (up_dn p i Hi), <- (up_dn p j Hj), Q. reflexivity.
+Qed.
+
+Lemma ins_length : forall p v s, length (ins p v s) = S (length s).
+Proof. induction p as [|p IH]; intros v [|b t]; cbn [ins length]; try reflexivity. now rewrite IH. Qed.
+
+Lemma del_ins : forall p v s, p <= length s -> del p (ins p v s) = s.
+Proof.
+  induction p as [|p IH]; intros v [|b t] H; cbn [ins del]; try reflexivity; cbn [length] in H; [lia|].
+  rewrite IH by lia. reflexivity.
+Qed.
+
+Lemma nth_ins : forall p v s i, p <= length s -> i <> p -> nth i (ins p v s) false = nth (dn p i) s false.
+Proof.
+  induction p as [|p IH]; intros v s i Hp Hi.
+  - destruct i as [|i]; [lia|]. destruct s; reflexivity.
+  - destruct s as [|b t]; [cbn in Hp; lia|]. cbn [length] in Hp. cbn [ins]. destruct i as [|i]; [reflexivity|].
+    rewrite dn_S by lia. cbn [nth]. apply IH; lia.
+Qed.
+
+Lemma par_ins : forall p v s i, p <= length s -> i <> p ->
+  par i (ins p v s) = xorb (v && (p <? i)) (par (dn p i) s).
+Proof.
+  induction p as [|p IH]; intros v s i Hp Hi.
+  - destruct i as [|i]; [lia|]. cbn [ins par]. change (dn 0 (S i)) with i.
+    change (0 <? S i) with true. now rewrite andb_true_r.
+  - destruct s as [|b t]; [cbn in Hp; lia|]. cbn [length] in Hp. cbn [ins]. destruct i as [|i].
+    + cbn [par]. change (S p <? 0) with false. now rewrite andb_false_r.
+    + rewrite dn_S by lia. cbn [par]. rewrite IH by lia. change (S p <? S i) with (p <? i).
+      destruct b, (v && (p <? i)), (par (dn p i) t); reflexivity.
+Qed.
+
+Lemma upd_ins : forall p v s i x, p <= length s -> i <> p -> upd i x (ins p v s) = ins p v (upd (dn p i) x s).
+Proof.
+  induction p as [|p IH]; intros v s i x Hp Hi.
+  - destruct i as [|i]; [lia|]. change (dn 0 (S i)) with i. reflexivity.
+  - destruct s as [|b t]; [cbn in Hp; lia|]. cbn [length] in Hp. cbn [ins]. destruct i as [|i]; [reflexivity|].
+    rewrite dn_S by lia. cbn [upd ins]. rewrite IH by lia. reflexivity.
+Qed.
+
+Lemma sact_ins : forall p v s ty i, p <= length s -> i <> p ->
+  sact (ty, i) (ins p v s) =
+  match sact (ty, dn p i) s with None => None | Some (g, s') => Some (xorb (v && (p <? i)) g, ins p v s') end.
+Proof.
+  intros p v s ty i Hp Hi. unfold sact. cbn [fst snd]. rewrite nth_ins, par_ins, upd_ins by assumption.
+  destruct (eqb (nth (dn p i) s false) (negb ty)); reflexivity.
+Qed.
+
+Lemma nos_ins_eqb : forall p v a b, length a = length b -> p <= length a ->
+  Nat.eqb (nat_of_state (ins p v a)) (nat_of_state (ins p v b)) = Nat.eqb (nat_of_state a) (nat_of_state b).
+Proof.
+  intros p v a b HL Hp. destruct (Nat.eqb (nat_of_state a) (nat_of_state b)) eqn:E.
+  - apply Nat.eqb_eq in E. apply nos_inj in E; [|exact HL]. subst. apply Nat.eqb_refl.
+  - apply nos_eqb; [rewrite !ins_length; lia|]. intro Q. apply (f_equal (del p)) in Q.
+    rewrite !del_ins in Q by lia. subst. now rewrite Nat.eqb_refl in E.
+Qed.
+
+Lemma length_del : forall A p (l : list A), p < length l -> length (del p l) = pred (length l).
+Proof.
+  intros A. induction p as [|p IH]; intros [|a t] H; cbn [length] in *; try lia; cbn [del length]; [reflexivity|].
+  rewrite IH by lia. lia.
+Qed.
+
+Lemma nth_del : forall A p (l : list A) i d, i <> p -> nth (dn p i) (del p l) d = nth i l d.
+Proof.
+  intros A. induction p as [|p IH]; intros l i d H.
+  - destruct i as [|i]; [lia|]. change (dn 0 (S i)) with i. destruct l; [destruct i|]; reflexivity.
+  - destruct l as [|a t]; [destruct i, (dn (S p) _); reflexivity|]. cbn [del]. destruct i as [|i]; [reflexivity|].
+    rewrite dn_S by lia. cbn [nth]. apply IH. lia.
+Qed.
+
+Lemma nth_del_up : forall A p (l : list A) a d, nth a (del p l) d = nth (up p a) l d.
+Proof. intros A p l a d. rewrite <- (dn_up p a) at 1. apply nth_del. apply up_neq. Qed.
+
+Lemma In_del : forall A p (l : list A) x, In x (del p l) -> In x l.
+Proof.
+  intros A. induction p as [|p IH]; intros [|a t] x H; cbn [del] in H; try contradiction.
+  - now right.
+  - destruct H as [H|H]; [now left | right; now apply IH].
+Qed.
+
+(** each mode occurs an even number of times among four indices, or some mode an odd number of times *)
+Definition xor4 (i1 i2 i3 i4 q : nat) : bool :=
+  xorb (Nat.eqb i1 q) (xorb (Nat.eqb i2 q) (xorb (Nat.eqb i3 q) (Nat.eqb i4 q))).
+Definition paired (i1 i2 i3 i4 : nat) : Prop :=
+  (i1 = i2 /\ i3 = i4) \/ (i1 = i3 /\ i2 = i4) \/ (i1 = i4 /\ i2 = i3).
+
+Ltac eqb_decide :=
+  repeat match goal with
+  | |- context [Nat.eqb ?a ?a] => rewrite (Nat.eqb_refl a)
+  | |- context [Nat.eqb ?a ?b] => replace (Nat.eqb a b) with false by (symmetry; apply Nat.eqb_neq; lia)
+  end.
+
+Lemma paired_or_odd : forall i1 i2 i3 i4, paired i1 i2 i3 i4 \/ exists q, xor4 i1 i2 i3 i4 q = true.
+Proof.
+  intros i1 i2 i3 i4. unfold paired.
+  destruct (Nat.eq_dec i1 i2), (Nat.eq_dec i1 i3), (Nat.eq_dec i1 i4), (Nat.eq_dec i2 i3), (Nat.eq_dec i2 i4), (Nat.eq_dec i3 i4);
+  try (left; lia);
+  right; unfold xor4;
+  first [ exists i1; eqb_decide; reflexivity | exists i2; eqb_decide; reflexivity
+        | exists i3; eqb_decide; reflexivity | exists i4; eqb_decide; reflexivity ].
+Qed.
+
 Section Chi.
 Variable F : fsetting.
 Notation K := (fK F).
@@ -94,5 +236,226 @@ Proof.
   pose proof (sact_length _ _ _ _ E3) as L3. cbv beta zeta. cbn [fst snd].
   rewrite mget_op_matrix by (rewrite <- Hs; first [apply nos_lt | rewrite <- L1, <- L2, <- L3; apply nos_lt]).
   rewrite ent_by_col by assumption. reflexivity.
+Qed.
+
+(** * 2. Some mode occurs an odd number of times: no path closes *)
+Lemma T4_odd_zero : forall o1 o2 o3 o4 beta tol Ef Wf z1 z2 z3 s q,
+  (snd o1 < length s)%nat -> (snd o2 < length s)%nat -> (snd o3 < length s)%nat -> (snd o4 < length s)%nat ->
+  xor4 (snd o1) (snd o2) (snd o3) (snd o4) q = true ->
+  T4 o1 o2 o3 o4 beta tol Ef Wf z1 z2 z3 s = 0.
+Proof.
+  intros [t1 i1] [t2 i2] [t3 i3] [t4 i4] beta tol Ef Wf z1 z2 z3 s q H1 H2 H3 H4 Hodd.
+  cbn [snd] in *. unfold T4, flip_type. cbn [fst snd].
+  destruct (sact (negb t1, i1) s) as [[g1 sj]|] eqn:E1; [|reflexivity].
+  destruct (sact (negb t2, i2) sj) as [[g2 sk]|] eqn:E2; [|reflexivity].
+  destruct (sact (negb t3, i3) sk) as [[g3 sl]|] eqn:E3; [|reflexivity].
+  pose proof (sact_length _ _ _ _ E1) as L1. pose proof (sact_length _ _ _ _ E2) as L2.
+  pose proof (sact_length _ _ _ _ E3) as L3.
+  destruct (sact (t4, i4) s) as [[g4 s']|] eqn:E4; [|ring].
+  pose proof (sact_length _ _ _ _ E4) as L4.
+  destruct (Nat.eqb (nos s') (nos sl)) eqn:Q; [|ring].
+  exfalso. apply Nat.eqb_eq in Q. apply nos_inj in Q; [|lia]. subst s'.
+  pose proof (sact_bit _ _ _ _ _ q H1 E1) as B1.
+  assert (H2' : (i2 < length sj)%nat) by lia. pose proof (sact_bit _ _ _ _ _ q H2' E2) as B2.
+  assert (H3' : (i3 < length sk)%nat) by lia. pose proof (sact_bit _ _ _ _ _ q H3' E3) as B3.
+  pose proof (sact_bit _ _ _ _ _ q H4 E4) as B4.
+  rewrite B3, B2, B1 in B4. unfold xor4 in Hodd.
+  destruct (nth q s false), (Nat.eqb i1 q), (Nat.eqb i2 q), (Nat.eqb i3 q), (Nat.eqb i4 q); cbn in *; congruence.
+Qed.
+
+(** * 3. A spectator mode factors out *)
+Lemma SS_ins : forall p M g, (p <= M)%nat -> SS F (S M) g = SS F M (fun t => g (ins p false t) + g (ins p true t)).
+Proof.
+  induction p as [|p IH]; intros M g H.
+  - rewrite SS_S. reflexivity.
+  - destruct M as [|M]; [lia|]. rewrite SS_S, (IH M) by lia. rewrite SS_S. apply SS_ext. intros s _. cbn [ins]. ring.
+Qed.
+
+Lemma Est_ins : forall p eps s v, (p <= length s)%nat -> (p < length eps)%nat ->
+  Est F eps (ins p v s) = (if v then nth p eps 0 else 0) + Est F (del p eps) s.
+Proof.
+  induction p as [|p IH]; intros eps s v Hs He.
+  - destruct eps as [|e r]; [cbn in He; lia|]. reflexivity.
+  - destruct eps as [|e r]; [cbn in He; lia|]. destruct s as [|b t]; [cbn in Hs; lia|].
+    cbn [length] in *. cbn [ins Est del nth]. rewrite IH by lia. ring.
+Qed.
+
+Lemma Wst_ins : forall p xs s v, (p <= length s)%nat -> (p < length xs)%nat ->
+  Wst F xs (ins p v s) = (if v then nth p xs 0 else 1) * Wst F (del p xs) s.
+Proof.
+  induction p as [|p IH]; intros xs s v Hs He.
+  - destruct xs as [|e r]; [cbn in He; lia|]. reflexivity.
+  - destruct xs as [|e r]; [cbn in He; lia|]. destruct s as [|b t]; [cbn in Hs; lia|].
+    cbn [length] in *. cbn [ins Wst del nth]. rewrite IH by lia. ring.
+Qed.
+
+Lemma Zp_del : forall p xs, (p < length xs)%nat -> Zp F xs = (1 + nth p xs 0) * Zp F (del p xs).
+Proof.
+  induction p as [|p IH]; intros [|x r] H; cbn [length] in H; try lia; cbn [Zp del nth]; [reflexivity|].
+  rewrite (IH r) by lia. ring.
+Qed.
+
+Definition Wq (xs : list K) (s : state) : K := Wst F xs s / Zp F xs.
+
+Lemma Wq_ins : forall p xs s v, (p <= length s)%nat -> (p < length xs)%nat ->
+  1 + nth p xs 0 <> 0 -> Zp F (del p xs) <> 0 ->
+  Wq xs (ins p v s) = ((if v then nth p xs 0 else 1) / (1 + nth p xs 0)) * Wq (del p xs) s.
+Proof.
+  intros p xs s v Hs Hx H1 H2. unfold Wq. rewrite Wst_ins, (Zp_del p xs) by assumption. field. split; assumption.
+Qed.
+
+(** the documented kernel: a common shift of the four energies drops out, a common factor of the weights factors out *)
+Lemma phi_scale : forall beta tol c lam Ei Ej Ek El wi wj wk wl z1 z2 z3,
+  phi K NO beta tol (c + Ei) (c + Ej) (c + Ek) (c + El) (lam * wi) (lam * wj) (lam * wk) (lam * wl) z1 z2 z3 =
+  lam * phi K NO beta tol Ei Ej Ek El wi wj wk wl z1 z2 z3.
+Proof.
+  intros. unfold phi. cbv beta iota zeta delta [FNum n0 n1 nadd nsub nmul ndiv nopp nre_ltb nabs].
+  replace (z1 + (c + Ei) - (c + Ej)) with (z1 + Ei - Ej) by ring.
+  replace (z1 + z2 + z3 + (c + Ei) - (c + El)) with (z1 + z2 + z3 + Ei - El) by ring.
+  replace (z3 + (c + Ek) - (c + El)) with (z3 + Ek - El) by ring.
+  replace (z2 + (c + Ej) - (c + Ek)) with (z2 + Ej - Ek) by ring.
+  replace (c + Ei - (c + Ek)) with (Ei - Ek) by ring.
+  replace (z1 + z2 + (c + Ei) - (c + Ek)) with (z1 + z2 + Ei - Ek) by ring.
+  replace (c + Ej - (c + El)) with (Ej - El) by ring.
+  replace (z2 + z3 + (c + Ej) - (c + El)) with (z2 + z3 + Ej - El) by ring.
+  repeat match goal with |- context [if ?b then _ else _] => destruct b end;
+  rewrite !(Fdiv_def (fKf F)); ring.
+Qed.
+
+Lemma T4_ext : forall o1 o2 o3 o4 beta tol Ef Ef' Wf Wf' z1 z2 z3 s,
+  (forall t, length t = length s -> Ef t = Ef' t) -> (forall t, length t = length s -> Wf t = Wf' t) ->
+  T4 o1 o2 o3 o4 beta tol Ef Wf z1 z2 z3 s = T4 o1 o2 o3 o4 beta tol Ef' Wf' z1 z2 z3 s.
+Proof.
+  intros o1 o2 o3 o4 beta tol Ef Ef' Wf Wf' z1 z2 z3 s HE HW. unfold T4.
+  destruct (sact (flip_type o1) s) as [[g1 sj]|] eqn:E1; [|reflexivity].
+  destruct (sact (flip_type o2) sj) as [[g2 sk]|] eqn:E2; [|reflexivity].
+  destruct (sact (flip_type o3) sk) as [[g3 sl]|] eqn:E3; [|reflexivity].
+  pose proof (sact_length _ _ _ _ E1) as L1. pose proof (sact_length _ _ _ _ E2) as L2.
+  pose proof (sact_length _ _ _ _ E3) as L3.
+  rewrite (HE s), (HE sj), (HE sk), (HE sl), (HW s), (HW sj), (HW sk), (HW sl) by lia. reflexivity.
+Qed.
+
+Lemma sgc : forall c g, 0 + sg1 F (xorb c g) = sg1 F c * (0 + sg1 F g).
+Proof. intros c g. rewrite sg1_xorb. ring. Qed.
+
+Lemma T4_ins : forall eps xs p v t1 i1 t2 i2 t3 i3 t4 i4 beta tol z1 z2 z3 s,
+  length eps = S (length s) -> length xs = S (length s) -> (p <= length s)%nat ->
+  i1 <> p -> i2 <> p -> i3 <> p -> i4 <> p -> paired i1 i2 i3 i4 ->
+  1 + nth p xs 0 <> 0 -> Zp F (del p xs) <> 0 ->
+  T4 (t1, i1) (t2, i2) (t3, i3) (t4, i4) beta tol (Est F eps) (Wq xs) z1 z2 z3 (ins p v s) =
+  ((if v then nth p xs 0 else 1) / (1 + nth p xs 0)) *
+  T4 (t1, dn p i1) (t2, dn p i2) (t3, dn p i3) (t4, dn p i4) beta tol (Est F (del p eps)) (Wq (del p xs)) z1 z2 z3 s.
+Proof.
+  intros eps xs p v t1 i1 t2 i2 t3 i3 t4 i4 beta tol z1 z2 z3 s He Hx Hp N1 N2 N3 N4 Hpair Hx1 HZ.
+  unfold T4, flip_type. cbn [fst snd].
+  rewrite sact_ins by assumption.
+  destruct (sact (negb t1, dn p i1) s) as [[g1 sj]|] eqn:E1; [|ring].
+  pose proof (sact_length _ _ _ _ E1) as L1. rewrite sact_ins by (assumption || lia).
+  destruct (sact (negb t2, dn p i2) sj) as [[g2 sk]|] eqn:E2; [|ring].
+  pose proof (sact_length _ _ _ _ E2) as L2. rewrite sact_ins by (assumption || lia).
+  destruct (sact (negb t3, dn p i3) sk) as [[g3 sl]|] eqn:E3; [|ring].
+  pose proof (sact_length _ _ _ _ E3) as L3. rewrite (sact_ins p v s t4 i4) by assumption.
+  rewrite !Est_ins by lia. rewrite !Wq_ins by (assumption || lia). rewrite phi_scale.
+  set (PH := phi K NO beta tol _ _ _ _ _ _ _ _ _ _ _).
+  set (lam := (if v then nth p xs 0 else 1) / (1 + nth p xs 0)).
+  destruct (sact (t4, dn p i4) s) as [[g4 s']|] eqn:E4; [|ring].
+  pose proof (sact_length _ _ _ _ E4) as L4. rewrite nos_ins_eqb by lia.
+  rewrite !sgc, sg1_xorb.
+  assert (SQ : forall c, sg1 F c * sg1 F c = 1) by (destruct c; unfold sg1; ring).
+  destruct (Nat.eqb (nos s') (nos sl));
+  destruct Hpair as [[A B]|[[A B]|[A B]]]; subst;
+  match goal with
+  | |- context [sg1 F (v && (p <? ?a))] =>
+      pose proof (SQ (v && (p <? a))) as Sa; set (ca := sg1 F (v && (p <? a))) in *;
+      try match goal with
+      | |- context [sg1 F (v && (p <? ?b))] =>
+          pose proof (SQ (v && (p <? b))) as Sb; set (cb := sg1 F (v && (p <? b))) in *
+      end
+  end.
+  all: first
+    [ transitivity ((ca * ca) * (cb * cb) * (lam * ((0 + sg1 F g1) * (0 + sg1 F g2) * (0 + sg1 F g3) * (0 + sg1 F g4) * PH)));
+      [ring | rewrite Sa, Sb; ring]
+    | transitivity ((ca * ca) * (ca * ca) * (lam * ((0 + sg1 F g1) * (0 + sg1 F g2) * (0 + sg1 F g3) * (0 + sg1 F g4) * PH)));
+      [ring | rewrite Sa; ring]
+    | ring ].
+Qed.
+
+(** * The same at the level of EDSpec.chi_ordering and EDSpec.chi *)
+Lemma T4_tables : forall eps xs o1 o2 o3 o4 beta tol z1 z2 z3 s, length xs = length eps -> length s = length eps ->
+  T4 o1 o2 o3 o4 beta tol (fun s => nth (nos s) (energies F eps) 0) (fun s => nth (nos s) (gibbs F xs) 0) z1 z2 z3 s =
+  T4 o1 o2 o3 o4 beta tol (Est F eps) (Wq xs) z1 z2 z3 s.
+Proof.
+  intros. apply T4_ext; intros t Ht; [apply energies_nth | unfold Wq; apply gibbs_nth]; lia.
+Qed.
+
+Lemma chi_ordering_odd_zero : forall M o1 o2 o3 o4 beta tol E w z1 z2 z3 q,
+  (snd o1 < M)%nat -> (snd o2 < M)%nat -> (snd o3 < M)%nat -> (snd o4 < M)%nat ->
+  xor4 (snd o1) (snd o2) (snd o3) (snd o4) q = true ->
+  chi_ordering K NO beta tol E w (op_matrix K NO M o1) (op_matrix K NO M o2) (op_matrix K NO M o3) (op_matrix K NO M o4) z1 z2 z3 = 0.
+Proof.
+  intros M o1 o2 o3 o4 beta tol E w z1 z2 z3 q H1 H2 H3 H4 Hodd.
+  rewrite chi_ordering_states by assumption. rewrite <- (SS_zero F M). apply SS_ext. intros s Hs.
+  apply (T4_odd_zero _ _ _ _ _ _ _ _ _ _ _ _ q); try (rewrite Hs; assumption). exact Hodd.
+Qed.
+
+Lemma chi_ordering_remove : forall eps xs p t1 i1 t2 i2 t3 i3 t4 i4 beta tol z1 z2 z3,
+  length xs = length eps -> (p < length eps)%nat ->
+  (i1 < length eps)%nat -> (i2 < length eps)%nat -> (i3 < length eps)%nat -> (i4 < length eps)%nat ->
+  i1 <> p -> i2 <> p -> i3 <> p -> i4 <> p -> paired i1 i2 i3 i4 -> (forall x, In x xs -> 1 + x <> 0) ->
+  chi_ordering K NO beta tol (energies F eps) (gibbs F xs)
+    (op_matrix K NO (length eps) (t1, i1)) (op_matrix K NO (length eps) (t2, i2))
+    (op_matrix K NO (length eps) (t3, i3)) (op_matrix K NO (length eps) (t4, i4)) z1 z2 z3 =
+  chi_ordering K NO beta tol (energies F (del p eps)) (gibbs F (del p xs))
+    (op_matrix K NO (length (del p eps)) (t1, dn p i1)) (op_matrix K NO (length (del p eps)) (t2, dn p i2))
+    (op_matrix K NO (length (del p eps)) (t3, dn p i3)) (op_matrix K NO (length (del p eps)) (t4, dn p i4)) z1 z2 z3.
+Proof.
+  intros eps xs p t1 i1 t2 i2 t3 i3 t4 i4 beta tol z1 z2 z3 Hlen Hp H1 H2 H3 H4 N1 N2 N3 N4 Hpair Hx.
+  assert (Hpx : (p < length xs)%nat) by lia.
+  rewrite !chi_ordering_states
+    by (cbn [snd]; first [assumption | rewrite length_del by assumption; apply dn_lt; assumption]).
+  rewrite (length_del _ p eps) by assumption.
+  transitivity (SS F (length eps) (T4 (t1, i1) (t2, i2) (t3, i3) (t4, i4) beta tol (Est F eps) (Wq xs) z1 z2 z3)).
+  { apply SS_ext. intros s Hs. apply T4_tables; assumption. }
+  transitivity (SS F (pred (length eps)) (T4 (t1, dn p i1) (t2, dn p i2) (t3, dn p i3) (t4, dn p i4) beta tol
+                                          (Est F (del p eps)) (Wq (del p xs)) z1 z2 z3)).
+  2:{ apply SS_ext. intros s Hs. symmetry. apply T4_tables; rewrite !length_del by assumption; lia. }
+  assert (X1 : 1 + nth p xs 0 <> 0) by (apply Hx; apply nth_In; exact Hpx).
+  assert (HZ : Zp F (del p xs) <> 0) by (apply Zp_nz; intros x Hin; apply Hx; eapply In_del; eassumption).
+  destruct (length eps) as [|M'] eqn:EL; [lia|]. cbn [pred].
+  rewrite (SS_ins p) by lia. apply SS_ext. intros s Hs.
+  rewrite !(T4_ins eps xs p) by (assumption || lia). field. exact X1.
+Qed.
+
+Ltac chi_unfold :=
+  cbv beta iota zeta delta [chi perms3 ksum fold_left nth fst snd].
+
+Lemma chi_remove_spectator : forall eps xs p i j k l beta tol z1 z2 z3,
+  length xs = length eps -> (p < length eps)%nat ->
+  (i < length eps)%nat -> (j < length eps)%nat -> (k < length eps)%nat -> (l < length eps)%nat ->
+  i <> p -> j <> p -> k <> p -> l <> p -> paired i j k l -> (forall x, In x xs -> 1 + x <> 0) ->
+  chi K NO beta tol (energies F eps) (gibbs F xs)
+      (Cm F (length eps) i) (Cm F (length eps) j) (CXm F (length eps) k) (CXm F (length eps) l) z1 z2 z3 =
+  chi K NO beta tol (energies F (del p eps)) (gibbs F (del p xs))
+      (Cm F (length (del p eps)) (dn p i)) (Cm F (length (del p eps)) (dn p j))
+      (CXm F (length (del p eps)) (dn p k)) (CXm F (length (del p eps)) (dn p l)) z1 z2 z3.
+Proof.
+  intros eps xs p i j k l beta tol z1 z2 z3 Hlen Hp H1 H2 H3 H4 N1 N2 N3 N4 Hpair Hx.
+  unfold Cm, CXm, cann, cdag. chi_unfold.
+  rewrite !(chi_ordering_remove eps xs p) by (first [assumption | unfold paired in *; lia]).
+  reflexivity.
+Qed.
+
+Lemma chi_odd_zero : forall eps xs i j k l beta tol z1 z2 z3 q,
+  (i < length eps)%nat -> (j < length eps)%nat -> (k < length eps)%nat -> (l < length eps)%nat ->
+  xor4 i j k l q = true ->
+  chi K NO beta tol (energies F eps) (gibbs F xs)
+      (Cm F (length eps) i) (Cm F (length eps) j) (CXm F (length eps) k) (CXm F (length eps) l) z1 z2 z3 = 0.
+Proof.
+  intros eps xs i j k l beta tol z1 z2 z3 q H1 H2 H3 H4 Hodd.
+  unfold Cm, CXm, cann, cdag. chi_unfold.
+  rewrite !(chi_ordering_odd_zero _ _ _ _ _ _ _ _ _ _ _ _ q)
+    by (cbn [snd]; first [assumption
+        | unfold xor4 in *; destruct (Nat.eqb i q), (Nat.eqb j q), (Nat.eqb k q), (Nat.eqb l q); cbn in *; congruence]).
+  cbv [FNum nadd nopp n0]. ring.
 Qed.
 End Chi.
